@@ -14,6 +14,7 @@ pub fn info() -> PropInfo {
         rule: "proptest over key-bound credentials (holder key ES256 / EdDSA, issuer alg independent) x selection x {Compact,JSON} x Unicode (aud, nonce); honest presentation from the library holder must be accepted with the C01 view; then per credential an enumeration of attacks with hand-made KB-JWTs: removed / null / empty; single-character changes (first/last 3 + 6 sampled positions of each part; thorough: all); re-signed by attacker key, issuer key, other family, alg none, HS256 keyed with public key material; typ absent/JWT/'kb+jwt '/KB+JWT/sd+jwt/empty; nonce/aud absent/different/wrong type; sd_hash absent/random/null/over JWT alone/one fewer/one more/without trailing '~'; honest KB-JWT replayed onto one more / one fewer / reordered disclosures and onto another credential; verifier expecting other aud/nonce; only one of aud/nonce. Oracle: every attack => Err. Non-trivial sub-case: attack on a credential whose honest presentation verified; distinct by (case hash, attack description). evaluations = verifier executions.",
         assumptions: &["aud given as an array that contains the expected audience is not treated as an attack (it names that audience)", "attacker keys: one per family; ring/jsonwebtoken trusted"],
         needs_mock: false,
+        rounds: 4,
     }
 }
 
